@@ -292,15 +292,17 @@ def cmd_shrink(args):
 # ------------------------------------------------------------------- main check
 TIERS = {
     # prop: (quick runs, thorough runs, thorough hash-seed groups)
-    'C03': (1600, 60000, [0, 1, 2, 3]),
-    'C07': (1600, 60000, [0, 1, 2, 3]),
-    'C08': (1600, 60000, [0, 1, 2, 3]),
-    'C09': (1000, 40000, [0, 1, 2, 3]),
-    'C10': (400, 12000, [0, 1, 2, 3]),
-    'C20': (3000, 400000, [0, 1]),
+    # thorough budgets are sized so that all nine tiers together finish in about three and a half hours
+    # on 16 cores (the scenarios added in sensitivity rounds 6 and 7 made single runs longer)
+    'C03': (1600, 30000, [0, 1, 2, 3]),
+    'C07': (1600, 30000, [0, 1, 2, 3]),
+    'C08': (1600, 30000, [0, 1, 2, 3]),
+    'C09': (1000, 20000, [0, 1, 2, 3]),
+    'C10': (400, 6000, [0, 1, 2, 3]),
+    'C20': (3000, 150000, [0, 1]),
     'C18': (2000, 100000, [0, 1]),
-    'C17': (400, 12000, [0, 1]),
-    'C14': (1500, 100000, [0, 1]),
+    'C17': (400, 6000, [0, 1]),
+    'C14': (1500, 60000, [0, 1]),
 }
 
 
